@@ -37,7 +37,11 @@ func ySource(s Source) yaml.MapSlice {
 		out = append(out, yaml.MapItem{Key: "fields", Value: yStrs(*s.Fields)})
 	}
 	if s.Variables != nil {
-		out = append(out, yaml.MapItem{Key: "variables", Value: yKVs(*s.Variables)})
+		vars := yaml.MapSlice{}
+		for _, e := range *s.Variables {
+			vars = append(vars, yaml.MapItem{Key: e.K, Value: s.TypedValue(e)})
+		}
+		out = append(out, yaml.MapItem{Key: "variables", Value: vars})
 	}
 	return out
 }
